@@ -4,6 +4,7 @@ import Mutiny.Model.Handles
 import Mutiny.Model.IncAvg
 import Mutiny.Model.Stack
 import Mutiny.Model.Wake
+import Mutiny.Model.Multi
 /-! Uniform interface of the executable models for the replay driver. -/
 namespace Driver
 
@@ -37,38 +38,44 @@ end AnyMachine
 
 def showList (l : List Nat) : String := " ".intercalate (l.map toString)
 
-/-! ### M1 Ring -/
+/-! ### M1 Ring — `origin` (a multiple of `N`): the implementation's counters start there (and wrap at 2^32) -/
+structure RingD where
+  s : Mutiny.Ring.St
+  origin : Nat
+
 open Mutiny in
-def ringMachine : Machine Ring.St where
-  call s t op args :=
+def ringMachine : Machine RingD where
+  call d t op args :=
+    let s := d.s
     let idle := s.thr t == .idle
+    let upd (s' : Ring.St) : Option RingD := some { d with s := s' }
     match op, args with
-    | "send", [v]  => if idle then some (Ring.apply s (.send t v.toNat!)) else none
-    | "recv", []   => if idle then some (Ring.apply s (.recv t)) else none
-    | "len", []    => if idle then some (Ring.apply s (.len t)) else none
-    | "reserve", [] => if idle then some (Ring.apply s (.reserve t)) else none
+    | "send", [v]  => if idle then upd (Ring.apply s (.send t v.toNat!)) else none
+    | "recv", []   => if idle then upd (Ring.apply s (.recv t)) else none
+    | "len", []    => if idle then upd (Ring.apply s (.len t)) else none
+    | "reserve", [] => if idle then upd (Ring.apply s (.reserve t)) else none
     | "fill", [v]  => match s.thr t with
-                      | .rHold _ => some (Ring.apply s (.fill t v.toNat!))
+                      | .rHold _ => upd (Ring.apply s (.fill t v.toNat!))
                       | _ => none
     | "pubidx", [] => match s.thr t with
-                      | .rHold _ => some (Ring.apply s (.pubIdx t))
+                      | .rHold _ => upd (Ring.apply s (.pubIdx t))
                       | _ => none
     | "canidx", [] => match s.thr t with
-                      | .rHold _ => some (Ring.apply s (.canIdx t))
+                      | .rHold _ => upd (Ring.apply s (.canIdx t))
                       | _ => none
     | _, _ => none
-  tag s t := Ring.tagOf (s.thr t)
-  step s t := Ring.step s t
-  result s t := match s.thr t with
+  tag d t := (Ring.tagOf (d.s.thr t)).map fun (tg, v) => (tg, (v + d.origin) % 4294967296)
+  step d t := { d with s := Ring.step d.s t }
+  result d t := match d.s.thr t with
     | .done r => some r.show
     | .rRet _ r => some r.show
     | _ => none
-  ack s t := Ring.apply s (.ack t)
-  observe s k := match k with
-    | "abs" => some (showList (Ring.abs s))
-    | "len" => some (toString (s.tail - s.head))
+  ack d t := { d with s := Ring.apply d.s (.ack t) }
+  observe d k := match k with
+    | "abs" => some (showList (Ring.abs d.s))
+    | "len" => some (toString (d.s.tail - d.s.head))
     | _ => none
-  describe s t := reprStr (s.thr t) ++ s!" head={s.head} tail={s.tail} enqTail={s.enqTail} deqHead={s.deqHead}"
+  describe d t := reprStr (d.s.thr t) ++ s!" head={d.s.head} tail={d.s.tail} enqTail={d.s.enqTail} deqHead={d.s.deqHead} origin={d.origin}"
   cmpVal tag := tag != "am.len" && tag != "am.p.fetch" && tag != "am.c.fetch" && tag != "am.c.chkhead"
 
 /-! ### M2 LockRing -/
@@ -244,16 +251,49 @@ def wakeMachine : Machine WakeD where
     else reprStr (d.s.thr t) ++ s!" q={d.s.q} resv={d.s.resv} held={d.s.held}"
   cmpVal tag := tag != "sync.spin"
 
+/-! ### M6+M7 Multi -/
+open Mutiny in
+def multiMachine : Machine Multi.St where
+  call s t op args :=
+    let idle := s.thr t == .idle
+    let nat (x : String) := x.toNat!
+    match op, args with
+    | "create", []   => if idle then some (Multi.apply s (.create t)) else none
+    | "drop", [id]   => if idle && s.live.contains (nat id) then some (Multi.apply s (.drop t (nat id))) else none
+    | "send", [ev]   => if idle then some (Multi.apply s (.send t (nat ev))) else none
+    | "poll", [id]   => if idle then some (Multi.apply s (.poll t (nat id))) else none
+    | "release", [ev] => some (Multi.apply s (.release (nat ev)))
+    | _, _ => none
+  tag s t := match Multi.tagOf s.MAX (s.thr t) with
+    | some ("mc.fan.read", v) => if s.flavor == .arc && v == s.MAX then some ("mc.fan.read", 4294967295) else some ("mc.fan.read", v)
+    | x => x
+  step s t := Multi.step s t
+  result s t := match s.thr t with
+    | .done r => some r.show
+    | _ => none
+  ack s t := Multi.apply s (.ack t)
+  observe s k := match k with
+    | "count" => some (toString s.count)
+    | "used" => some (showList (s.used.filter (· != s.MAX)))
+    | "leaked" => some (showList (s.sent.filter (fun e => s.refs e != 0)))
+    | _ => none
+  describe s t := reprStr (s.thr t) ++ s!" used={s.used} vacant={s.vacant} count={s.count} slock={s.slock}"
+  cmpVal tag := tag != "sync.spin" && tag != "sm.sync.lock" && tag != "sm.sync.peek" && tag != "sm.create.count" && tag != "sm.create.vacant" && tag != "sm.running"
+
 def lookup (kv : List (String × String)) (k : String) : Option String :=
   (kv.find? (·.1 == k)).map (·.2)
 
 def mkMachine (kv : List (String × String)) : Option AnyMachine :=
   let n := ((lookup kv "N").getD "0").toNat!
   match lookup kv "model" with
-  | some "ring" => some { σ := _, m := ringMachine, s := Mutiny.Ring.init n }
+  | some "ring" => some { σ := _, m := ringMachine, s := { s := Mutiny.Ring.init n, origin := ((lookup kv "origin").getD "0").toNat! } }
   | some "lockring" => some { σ := _, m := lockRingMachine, s := Mutiny.LockRing.init n }
   | some "incavg" => some { σ := _, m := incAvgMachine, s := Mutiny.IncAvg.init }
   | some "stack" => some { σ := _, m := stackMachine, s := Mutiny.Stack.init n }
+  | some "multi" =>
+      let mx := ((lookup kv "MAX").getD "1").toNat!
+      let fl := if lookup kv "flavor" == some "ogre" then Mutiny.Multi.Flavor.ogreArc else .arc
+      some { σ := _, m := multiMachine, s := Mutiny.Multi.init mx 8 fl ((lookup kv "drains") == some "1") }
   | some "wake" =>
       let mx := ((lookup kv "MAX").getD "1").toNat!
       let k := ((lookup kv "k").getD "1").toNat!
